@@ -34,6 +34,7 @@ class Check:
     RUN_WALL = 60          # wall seconds allowed for one run
     MAX_STEPS = 1_500_000
     MAX_VIRTUAL = None
+    SPIN_READS = 5000      # a task that reads the clock that often and does nothing else is spinning (kernel._tick)
     TIERS = {'quick': {'runs': 2000, 'wall': 60}, 'thorough': {'runs': 200000, 'wall': 900}}
     RULE = ''
     REAL = []              # components running real code
@@ -76,7 +77,7 @@ def execute(check, case, seed=None, replay=None):
                      p_switch=shape.get('p_switch', 0.2),
                      line_gap_max=shape.get('line_gaps', 0),
                      trace_files=tuple(env.repo_file(f) for f in check.TRACE_FILES),
-                     max_steps=check.MAX_STEPS, max_virtual=check.MAX_VIRTUAL)
+                     max_steps=check.MAX_STEPS, max_virtual=check.MAX_VIRTUAL, spin_reads=check.SPIN_READS)
     ctx = {}
     random.seed(shape.get('random_seed', 1))
 
